@@ -594,8 +594,12 @@ Generic_set_xor(PyObject* self, PyObject* other)
     PyObject* result = NULL;
 
     set_self = PySet_New(self);
+    if (set_self == NULL) {
+        /* (do not go on iterating `other` with this error pending) */
+        goto err;
+    }
     set_other = PySet_New(other);
-    if (set_self == NULL || set_other == NULL) {
+    if (set_other == NULL) {
         goto err;
     }
 
